@@ -99,6 +99,12 @@ def run(sid, checks):
     if rc != 0:
         print("patch does not apply to /repo:", o); return 2
     results = {}
+    # the evidence files describe /repo itself: keep them out of reach of a run against a seeded change
+    saved = {}
+    for c in checks:
+        ev = os.path.join(ROOT, "evidence", c + ".json")
+        if os.path.exists(ev):
+            saved[ev] = open(ev, "rb").read()
     try:
         for c in checks:
             t = time.time()
@@ -109,6 +115,10 @@ def run(sid, checks):
             print(c, "exit", rc, (viol[:1] or ["-"])[0])
     finally:
         sh("git -C /repo checkout -- .")
+        for ev, data in saved.items():
+            with open(ev + ".tmp", "wb") as f:
+                f.write(data)
+            os.replace(ev + ".tmp", ev)
     m = json.load(open(os.path.join(d, "meta.json")))
     m.setdefault("checks_run_against_it", {}).update(results)
     m["caught_by"] = sorted(c for c, r in m["checks_run_against_it"].items() if r["exit"] == 1)
